@@ -41,7 +41,7 @@ N = {"quick": 160000, "thorough": 2400000}
 TIME_LIMIT = {"quick": 40, "thorough": 560}
 SHARDS = 16
 REACH = {
-    "quick": {"branch_rule_checked": 8000, "hinted_writes": 300, "wrong_name_hints": 100, "wide_union_cases": 25,
+    "quick": {"branch_rule_checked": 8000, "hinted_writes": 300, "wrong_name_hints": 100, "wide_union_cases": 25, "combined_option_reads": 2000,
               "record_ties": 100, "float_double_deferral": 50, "closure_roundtrips": 4000,
               "closure_named_record": 100, "closure_named_enum": 100, "closure_named_fixed": 100,
               "determinism_cross_process": 500, "tags_checked": 1000},
@@ -420,6 +420,27 @@ def one_case(sh, fa, rng, case, dtn, det_log):
             sh.count("closure_other_modes_ok")
         else:
             sh.count("closure_other_modes_not_reproduced")  # allowed (A15): untagged records re-resolve
+    # both option families at once: named-type reporting decides, the record-name options add nothing
+    if not has_logical:
+        rec_kw = rng.choice([{"return_record_name": True}, {"return_record_name_override": True},
+                             {"return_record_name": True, "return_record_name_override": True}])
+        for over in (False, True):
+            kw = dict(rec_kw, return_named_type=True)
+            if over:
+                kw["return_named_type_override"] = True
+            st, v = guard(read, **kw)
+            want_c = expected_tagged(node, tree, "named_override" if over else "named", None)
+            if st == "exc" or not RC.same(v, want_c):
+                sh.violation("override-tagging-wrong" if over else "named-branch-not-tagged",
+                             "options %s gave %s, expected %s" % (sorted(kw), exc_name(v) if st == "exc" else printable(v, 250), printable(want_c, 250)), dict(info, options=kw))
+                return
+            if not over:
+                st, back = guard(write_bytes, fa, schema_arg, v, False)
+                if st == "exc" or back != data:
+                    sh.violation("not-closed-under-read-write", "options %s: re-writing the read value gives %s, original bytes %s"
+                                 % (sorted(kw), exc_name(back) if st == "exc" else back[:60].hex(), data[:60].hex()), dict(info, read_value=v, options=kw))
+                    return
+            sh.count("combined_option_reads")
 
 
 DET_CHILD = r"""
